@@ -212,22 +212,32 @@ fn source_block_encoding_plan_cache() -> &'static Mutex<SourceBlockEncodingPlanC
 #[cfg(feature = "std")]
 fn get_or_generate_source_block_encoding_plan(symbol_count: u16) -> Arc<SourceBlockEncodingPlan> {
     {
+        #[cfg(raptorq_verif)]
+        verif_plan_cache::yield_point(1, symbol_count);
         let cache = source_block_encoding_plan_cache();
         let guard = cache
             .lock()
             .unwrap_or_else(|poisoned| poisoned.into_inner());
         if let Some(plan) = guard.plans.get(&symbol_count) {
+            #[cfg(raptorq_verif)]
+            verif_plan_cache::event(verif_plan_cache::LOOKUP_HIT, symbol_count, &guard);
             return Arc::clone(plan);
         }
+        #[cfg(raptorq_verif)]
+        verif_plan_cache::event(verif_plan_cache::LOOKUP_MISS, symbol_count, &guard);
     }
 
     let generated = Arc::new(SourceBlockEncodingPlan::generate(symbol_count));
+    #[cfg(raptorq_verif)]
+    verif_plan_cache::yield_point(2, symbol_count);
     let cache = source_block_encoding_plan_cache();
     let mut guard = cache
         .lock()
         .unwrap_or_else(|poisoned| poisoned.into_inner());
 
     if let Some(plan) = guard.plans.get(&symbol_count) {
+        #[cfg(raptorq_verif)]
+        verif_plan_cache::event(verif_plan_cache::INSERT_RACE, symbol_count, &guard);
         return Arc::clone(plan);
     }
 
@@ -239,8 +249,89 @@ fn get_or_generate_source_block_encoding_plan(symbol_count: u16) -> Arc<SourceBl
 
     guard.insertion_order.push_back(symbol_count);
     guard.plans.insert(symbol_count, Arc::clone(&generated));
+    #[cfg(raptorq_verif)]
+    verif_plan_cache::event(verif_plan_cache::INSERT_NEW, symbol_count, &guard);
     generated
 }
+
+// Verification hooks for the plan cache (compiled only with --cfg raptorq_verif): snapshot / clear / prefill,
+// a callback invoked before each lock acquisition (to force interleavings) and a callback invoked at the end of each
+// critical section while the mutex is still held (so that recorded events are ordered exactly like the critical sections).
+#[cfg(all(raptorq_verif, feature = "std"))]
+pub mod verif_plan_cache {
+    use super::*;
+    use std::sync::RwLock;
+
+    pub const LOOKUP_HIT: u8 = 1;
+    pub const LOOKUP_MISS: u8 = 2;
+    pub const INSERT_RACE: u8 = 3;
+    pub const INSERT_NEW: u8 = 4;
+
+    #[derive(Clone, Debug, PartialEq, Eq)]
+    pub struct Snapshot {
+        /// (requested symbol count, symbol count the cached plan was generated for), sorted by key
+        pub plans: Vec<(u16, u16)>,
+        pub fifo: Vec<u16>,
+    }
+
+    type YieldFn = dyn Fn(u8, u16) + Send + Sync;
+    type EventFn = dyn Fn(u8, u16, &Snapshot) + Send + Sync;
+    static YIELD: RwLock<Option<Arc<YieldFn>>> = RwLock::new(None);
+    static EVENT: RwLock<Option<Arc<EventFn>>> = RwLock::new(None);
+
+    pub fn capacity() -> usize {
+        SOURCE_BLOCK_ENCODING_PLAN_CACHE_CAPACITY
+    }
+
+    pub fn set_hooks(yield_cb: Option<Arc<YieldFn>>, event_cb: Option<Arc<EventFn>>) {
+        *YIELD.write().unwrap() = yield_cb;
+        *EVENT.write().unwrap() = event_cb;
+    }
+
+    pub(super) fn yield_point(point: u8, key: u16) {
+        let cb = YIELD.read().unwrap().clone();
+        if let Some(cb) = cb {
+            cb(point, key);
+        }
+    }
+
+    fn snap(c: &SourceBlockEncodingPlanCache) -> Snapshot {
+        let mut plans: Vec<(u16, u16)> = c.plans.iter().map(|(k, p)| (*k, p.source_symbol_count)).collect();
+        plans.sort();
+        Snapshot {
+            plans,
+            fifo: c.insertion_order.iter().copied().collect(),
+        }
+    }
+
+    pub(super) fn event(kind: u8, key: u16, c: &SourceBlockEncodingPlanCache) {
+        let cb = EVENT.read().unwrap().clone();
+        if let Some(cb) = cb {
+            cb(kind, key, &snap(c));
+        }
+    }
+
+    pub fn snapshot() -> Snapshot {
+        let guard = source_block_encoding_plan_cache().lock().unwrap_or_else(|p| p.into_inner());
+        snap(&guard)
+    }
+
+    pub fn clear() {
+        let mut guard = source_block_encoding_plan_cache().lock().unwrap_or_else(|p| p.into_inner());
+        guard.plans.clear();
+        guard.insertion_order.clear();
+    }
+
+    /// Fill the (cleared) cache with the given plans in FIFO order.
+    pub fn prefill(plans: &[(u16, SourceBlockEncodingPlan)]) {
+        let mut guard = source_block_encoding_plan_cache().lock().unwrap_or_else(|p| p.into_inner());
+        for (k, p) in plans {
+            guard.insertion_order.push_back(*k);
+            guard.plans.insert(*k, Arc::new(p.clone()));
+        }
+    }
+}
+
 #[derive(Clone, Debug, PartialEq, Eq)]
 #[cfg_attr(feature = "serde_support", derive(Serialize, Deserialize))]
 pub struct SourceBlockEncoder {
